@@ -243,6 +243,9 @@ def r2(ctx, repo):
             ctx.violation("R2", key, "the refit uses self.%s as it was before the merge (the new batch is ignored)" % attr, loc_of(f))
         elif got is None or got == NONE:
             ctx.violation("R2", key, "the refit drops `%s`" % p, loc_of(f))
+        elif any(q != p and merged_value(res, got, P(q), a2) for q, a2 in (("y", "_y"), ("X", "_X"))) or \
+                (got is not None and all(is_old(x, "_fh") for x in alts(got))):
+            ctx.violation("R2", key, "the refit passes %s in the role of `%s` (arguments swapped)" % (res.fmt(got), p), loc_of(f))
         else:
             ctx.undecided("R2", key, "refit on %s" % res.fmt(got), loc_of(f))
     fh = b.get("fh")
@@ -514,6 +517,18 @@ def r3(ctx, repo):
                       "the cutoff labels are attached only to single-step forecasts; multi-step forecasts are concatenated without their cutoffs", loc_of(c))
         else:
             ctx.ok("R3", C + ":multi-step-branch", "the cutoff labels are attached unconditionally", loc_of(c))
+        frame = c.base
+        ncols = ("item", ("getattr", frame, "shape"), ("const", 1))
+        for r_ in [x for x in fres.of_kind("return") if x.frame is fres.frame]:
+            v_ = r_.value
+            if isinstance(v_, tuple) and v_[0] == "item" and v_[1] == ("getattr", frame, "iloc"):
+                single = None
+                for cond, pol, origin in fres.facts(r_):
+                    if isinstance(cond, tuple) and cond[0] == "cmp" and ncols in (cond[2], cond[3]) and ("const", 1) in (cond[2], cond[3]) \
+                            and cond[1] in ("Eq", "NotEq"):
+                        single = (cond[1] == "Eq") == pol
+                ctx.check(single, "R3", C + ":all-windows-returned", "a single column is returned only when there is a single window",
+                          "only one window's forecasts are returned although there are several (column shortcut on the wrong branch)", loc_of(r_))
         base = c.base
         df = fres.ret_event(base[1]) if isinstance(base, tuple) and base[0] == "getattr" and base[2] == "T" else None
         ok = df is not None and df.target.kind == "ext" and df.target.ext == "pandas.DataFrame" and df.arg(0, "data") == P("y_preds")
@@ -605,9 +620,29 @@ def r3_steps(ctx, repo):
         forwarded(ctx, res, "R3", C + ":X", e.bound.get("X"), P(xname), "X forwarded", "`%s` is not forwarded" % xname, loc_of(e))
         for p_ in ("update_params", "return_pred_int", "alpha"):
             forwarded(ctx, res, "R3", C + ":" + p_, e.bound.get(p_), P(p_), "%s forwarded" % p_, "`%s` is not forwarded to the moving-cutoff loop" % p_, loc_of(e))
-        cv = e.bound.get("cv")
-        ctx.check(True if cv is not None and P("cv") in alts(cv) else (False if cv is None or not mentions(res, cv, P("cv")) else None), "R3", C + ":cv",
-                  "the caller's cv is used when given", "the caller's `cv` is ignored (always the default splitter): %s" % res.fmt(cv), loc_of(e))
+        for scen, val in (("given", ("obj", "cv")), ("default", NONE)):
+            r2_ = analysed(ctx, Prov(repo, no_inline=("_predict_moving_cutoff",)).run_method(cls, "update_predict", {"cv": val}))
+            pm2 = [x for x in r2_.calls("_predict_moving_cutoff", kind=("call",)) if x.target.kind == "method"]
+            key = C + ":cv-" + scen
+            if len(pm2) != 1 or pm2[0].bound is None:
+                ctx.undecided("R3", key, "expected one _predict_moving_cutoff call", loc0)
+                continue
+            cvv = pm2[0].bound.get("cv")
+            if scen == "given":
+                if cvv == val:
+                    ctx.ok("R3", key, "a splitter passed by the caller is the one used", loc_of(pm2[0]))
+                elif cvv is None or not mentions(r2_, cvv, val):
+                    ctx.violation("R3", key, "the caller's `cv` is ignored: the moving-cutoff loop runs over %s" % r2_.fmt(cvv), loc_of(pm2[0]))
+                else:
+                    ctx.undecided("R3", key, "with a given cv the loop runs over %s" % r2_.fmt(cvv), loc_of(pm2[0]))
+            else:
+                ce_ = r2_.ret_event(cvv)
+                if ce_ is not None and ce_.target is not None and ce_.target.kind == "class":
+                    ctx.ok("R3", key, "without cv a default %s is built" % ce_.target.cls.name, loc_of(pm2[0]))
+                elif cvv in (None, NONE):
+                    ctx.violation("R3", key, "without `cv` no default splitter is built (None reaches the moving-cutoff loop)", loc_of(pm2[0]))
+                else:
+                    ctx.undecided("R3", key, "without cv the loop runs over %s" % r2_.fmt(cvv), loc_of(pm2[0]))
         rets = [v for v, _ in res.returns]
         ctx.check(rets == [("ret", e.id)], "R3", C + ":result", "returns the moving-cutoff predictions", "result is not the moving-cutoff prediction", loc_of(e))
     # in-sample prediction through the moving cutoff must not refit
@@ -752,6 +787,8 @@ def r4(ctx, repo):
             ctx.check(cov, "R4", K + ":coverage", "every inner estimator is updated on every path",
                       "not every inner estimator is updated on every path (conditional or partial loop)", loc_of(e))
         if cname == "TransformedTargetForecaster":
+            ctx.check("transformers" in seen, "R4", C + ":transformers:present", "the transformers are updated",
+                      "the transformers are never updated (their time reference / inner models fall behind the data)", loc0)
             ctx.check("final-forecaster" in seen, "R4", C + ":final-forecaster:present", "the final forecaster is updated",
                       "the final forecaster is never updated", loc0)
         rets = [v for v, _ in res.returns]
@@ -778,7 +815,8 @@ def run(ctx):
     r3(ctx, repo)
     r3_steps(ctx, repo)
     r4(ctx, repo)
-    ctx.floor("R1", 10)
-    ctx.floor("R2", 13)
-    ctx.floor("R3", 82)
-    ctx.floor("R4", 60)
+    # floors (today: R1 10, R2 13, R3 86, R4 61 instances): a vanished family fails closed
+    ctx.floor("R1", 8)
+    ctx.floor("R2", 10)
+    ctx.floor("R3", 70)
+    ctx.floor("R4", 50)
